@@ -93,7 +93,7 @@ def check(ctx, what, text, obs, ex, dt, spec, ninputs=0):
 
 def engine_errors(ctx):
     """every failure of the C03-style chains of this run must be a typing error"""
-    for kind, exp, cj in ctx.expect:
+    for kind, exp, cj in [e[:3] for e in ctx.expect]:
         if kind != "case" or not isinstance(exp, str) or "E@" not in exp:
             continue
         last = exp.split(" | ")[-1]
